@@ -3,12 +3,9 @@
    lies in [mn, mx], with at least k of their two ends at an admissible terminus (protein terminus, enzymatic
    site, site behind a removable initiator methionine) and spanning at most mc enzymatic sites
    (k = 2 full, 1 semi-specific, 0 non-specific: no terminus or budget condition).
-   Non-specific and FULL digestion are proved for ALL sequences, enzymes, windows, budgets and methionine settings;
-   semi-specific digestion is proved by an exhaustive kernel-checked sweep whose bound is part of the statement (every
-   sequence of length 1..5 over the five residue classes the algorithm can distinguish, five enzyme shapes, five
-   windows, budgets 0..2, both methionine settings) - the unbounded statement for it is tied by the correspondence
-   check only. *)
-From PGF Require Import Base.Prelude Base.PyStr Model.Digest Proofs.DigestProofs Proofs.DigestFull Proofs.DigestSweepAll Gen.Enzymes_gen.
+   All three digestion modes are proved for ALL non-empty sequences, enzymes, windows (min_len >= 1), missed-cleavage
+   budgets and methionine settings. *)
+From PGF Require Import Base.Prelude Base.PyStr Model.Digest Proofs.DigestProofs Proofs.DigestFull Proofs.DigestSemi Gen.Enzymes_gen.
 
 (* a cleavage site is exactly a position after a 'pre' residue not followed by a 'not_post' residue, or before a 'post' residue *)
 Theorem C08_site_iff_rule : forall e s b,
@@ -45,15 +42,26 @@ Theorem C08_full_digest_spec : forall e s mn mx mc met p,
 Proof. exact full_digest_spec. Qed.
 Print Assumptions C08_full_digest_spec.
 
-(* full and semi-specific digestion, exhaustively within the stated bound *)
-Theorem C08_full_and_semi_digest_spec_bounded : forall d, d <> DNone ->
-  forall s e w mc met p,
-    1 <= length s <= 5 -> Forall (fun c => In c alpha5) s ->
-    In e shapes -> In w windows -> In mc budgets ->
-    (In p (get_digested_peptides e d s (fst w) (snd w) mc met) <->
-     In p (spec_digest e (k_of d) s (fst w) (snd w) mc met)).
-Proof. exact bounded_digest_spec. Qed.
-Print Assumptions C08_full_and_semi_digest_spec_bounded.
+(* semi-specific digestion, likewise for all inputs: position-by-position invariant (the open starts are the last mc+1
+   registered boundaries; an admissible end admits every start from the first open one on, an inadmissible end exactly the
+   open starts), the clamped residue pair at the last position, and the three methionine situations *)
+Theorem C08_semi_digest_spec : forall e s mn mx mc met p,
+  1 <= length s -> 1 <= mn ->
+  (In p (semi_specific_digest e s mn mx mc met) <-> In p (spec_digest e 1 s mn mx mc met)).
+Proof. exact semi_digest_spec. Qed.
+Print Assumptions C08_semi_digest_spec.
+
+(* the dispatcher: every digestion mode yields exactly the rule's peptide set *)
+Theorem C08_get_digested_peptides_spec : forall e d s mn mx mc met p,
+  1 <= length s -> 1 <= mn ->
+  (In p (get_digested_peptides e d s mn mx mc met) <-> In p (spec_digest e (k_of d) s mn mx mc met)).
+Proof.
+  intros e d s mn mx mc met p Hn Hmn. destruct d; cbn [get_digested_peptides k_of].
+  - apply full_digest_spec; assumption.
+  - apply semi_digest_spec; assumption.
+  - apply non_specific_digest_spec; assumption.
+Qed.
+Print Assumptions C08_get_digested_peptides_spec.
 
 (* every supported enzyme (table REGENERATED from digest.py on every run): residues are single upper-case letters,
    names are distinct, and every enzyme except "no_enzyme" cleaves somewhere *)
